@@ -90,3 +90,78 @@ func runSeeded(repo string, only []string) int {
 	}
 	return 0
 }
+
+// runRefactors applies each behaviour-preserving patch under refactors/*/ to a scratch
+// copy and expects every rule to stay silent: any report is a false alarm of the checker.
+func runRefactors(repo string, only []string) int {
+	vdir := verifDir()
+	files, _ := filepath.Glob(filepath.Join(vdir, "refactors", "*", "*.diff"))
+	sort.Strings(files)
+	bad, n := 0, 0
+	for _, pf := range files {
+		name := filepath.Base(filepath.Dir(pf)) + "/" + filepath.Base(pf)
+		if len(only) > 0 {
+			m := false
+			for _, o := range only {
+				if strings.Contains(name, o) {
+					m = true
+				}
+			}
+			if !m {
+				continue
+			}
+		}
+		n++
+		tmp, err := os.MkdirTemp("", "walcheck-refactor-")
+		if err != nil {
+			fmt.Println("FAIL", name, err)
+			bad++
+			continue
+		}
+		res := func() string {
+			defer os.RemoveAll(tmp)
+			if out, err := exec.Command("rsync", "-a", "--exclude", ".git", repo+"/", tmp+"/").CombinedOutput(); err != nil {
+				return "cannot copy repo: " + string(out)
+			}
+			cmd := exec.Command("patch", "-p1", "-s", "-i", pf)
+			cmd.Dir = tmp
+			if out, err := cmd.CombinedOutput(); err != nil {
+				return "STALE: patch no longer applies: " + strings.TrimSpace(string(out))
+			}
+			p, err := loadProg(LoadConfig{RepoDir: tmp})
+			if err != nil {
+				return "variant does not load: " + err.Error()
+			}
+			var noisy []string
+			for _, rule := range allRules {
+				if rule.ThoroughOnly {
+					continue
+				}
+				rr := execRule(p, rule, "quick")
+				for _, o := range rr.Obls {
+					if o.Status != Discharged {
+						noisy = append(noisy, o.Key)
+					}
+				}
+			}
+			sort.Strings(noisy)
+			if len(noisy) > 0 {
+				return "FALSE ALARM: " + strings.Join(noisy, ", ")
+			}
+			return "ok"
+		}()
+		st := "ok  "
+		if res != "ok" {
+			st = "FAIL"
+			if !strings.HasPrefix(res, "STALE") {
+				bad++
+			}
+		}
+		fmt.Printf("%s %-16s %s\n", st, name, strings.TrimPrefix(res, "ok"))
+	}
+	fmt.Printf("refactors: %d behaviour-preserving patches, %d with false alarms\n", n, bad)
+	if bad > 0 {
+		return 1
+	}
+	return 0
+}
